@@ -113,6 +113,20 @@ func checkC05(e *Env) {
 		smp.Add(map[string]any{"entropy": hx(c.Ent), "language": ref.Names[c.Lang], "class": c.Class, "sentence": out, "decoded": hx(back)})
 	})
 
+	histCalls := e.runHistories(drv, "C05", e.pick(24, 300), 4, func(ops []plan.Op, res []plan.Res) {
+		for i := range res {
+			op := &ops[i]
+			if op.Fn != "enc" || op.L < 0 || op.L >= ref.NLang || !validEntLen(len(op.Entropy())) || res[i].Panic != "" || res[i].Err != nil {
+				continue
+			}
+			out := string(unhex(res[i].Out))
+			if back, ok := e.Model.DecodeLoose(strings.Fields(out), int(op.L)); !ok || !bytes.Equal(back, op.Entropy()) {
+				e.Violate(&Violation{What: fmt.Sprintf("after earlier calls in the same process the mnemonic for entropy %x (%s) decodes to %x: %s", op.Entropy(), ref.Names[op.L], back, preview(out)),
+					Ops: ops[:i+1], Expected: map[string]string{"decoded_entropy": hx(op.Entropy())}, Observed: res[i], Detail: historyNote})
+				return
+			}
+		}
+	})
 	// every single-bit flip must change the mnemonic
 	flipsCompared := 0
 	for g, fs := range flipSent {
@@ -145,6 +159,7 @@ func checkC05(e *Env) {
 		"bit_positions_flipped_per_width": bitsCovered,
 		"sentences_in_collision_map":      len(seen),
 		"repeated_sentences_examined":     collisionsExamined,
+		"calls_inside_histories":          histCalls,
 		"children":                        stats.Children,
 		"child_deaths":                    stats.Deaths,
 	}, []string{"golden lists are the canonical lists", "the harness reference decoder (self-tested on published vectors)"})
